@@ -31,14 +31,15 @@ struct Recorder : Visitor {
 // (3) a visitor that overrides only the pure sinks (+ Classic, which records and continues with the inherited default)
 struct Defaults : Visitor {
    std::vector<int> chain;
-   void visit(const Node&) override { chain.push_back(ABS_NODE); }
-   void visit(const Expr&) override { chain.push_back(ABS_EXPR); }
-   void visit(const Classic& n) override { chain.push_back(ABS_CLASSIC); Visitor::visit(n); }
-   void visit(const Name&) override { chain.push_back(ABS_NAME); }
-   void visit(const Type&) override { chain.push_back(ABS_TYPE); }
-   void visit(const Directive&) override { chain.push_back(ABS_DIRECTIVE); }
-   void visit(const Stmt&) override { chain.push_back(ABS_STMT); }
-   void visit(const Decl&) override { chain.push_back(ABS_DECL); }
+   std::vector<const Node*> seen;       // the object each sink was handed
+   void visit(const Node& n) override { chain.push_back(ABS_NODE); seen.push_back(&n); }
+   void visit(const Expr& n) override { chain.push_back(ABS_EXPR); seen.push_back(&n); }
+   void visit(const Classic& n) override { chain.push_back(ABS_CLASSIC); seen.push_back(&n); Visitor::visit(n); }
+   void visit(const Name& n) override { chain.push_back(ABS_NAME); seen.push_back(&n); }
+   void visit(const Type& n) override { chain.push_back(ABS_TYPE); seen.push_back(&n); }
+   void visit(const Directive& n) override { chain.push_back(ABS_DIRECTIVE); seen.push_back(&n); }
+   void visit(const Stmt& n) override { chain.push_back(ABS_STMT); seen.push_back(&n); }
+   void visit(const Decl& n) override { chain.push_back(ABS_DECL); seen.push_back(&n); }
 };
 
 template<class T> static std::vector<int> expected_chain()
@@ -104,6 +105,19 @@ static void body(Ctx& C)
       Sweep S(lex, unit, rng);
       S.run_all();
       Collector col;
+      // first declarations and redeclarations (master() differs from the node itself) of every declaration kind
+      {
+         impl::Scope& sc = *unit.global_scope();
+         impl::Warehouse<Type> w1; w1.push_back(L.int_type());
+         auto& p1 = lex.get_product(w1); auto& ft = lex.get_function(p1, L.int_type()); auto& fa = lex.get_forall(p1, L.class_type());
+         for (int rep = 0; rep < 3; ++rep) {
+            col.add(*sc.make_var(lex.get_identifier(u8"rd_var"), L.int_type())); col.add(*sc.make_field(lex.get_identifier(u8"rd_field"), L.int_type()));
+            { auto* b = sc.make_bitfield(lex.get_identifier(u8"rd_bitfield"), L.int_type()); b->length = lex.make_literal(L.int_type(), u8"3"); col.add(*b); }
+            col.add(*sc.make_alias(lex.get_identifier(u8"rd_alias"), *lex.make_literal(L.int_type(), u8"0"))); col.add(*sc.make_typedecl(lex.get_identifier(u8"rd_type"), L.class_type()));
+            col.add(*sc.make_fundecl(lex.get_identifier(u8"rd_fun"), ft)); col.add(*sc.make_primary_template(lex.get_identifier(u8"rd_primary"), fa)); col.add(*sc.make_secondary_template(lex.get_identifier(u8"rd_secondary"), fa));
+            C.count("redeclarations_instantiated", rep ? 8 : 0);
+         }
+      }
       collect_roots(col, S);
       for (auto np : col.nodes) {
          const Node& n = *np;
@@ -125,6 +139,7 @@ static void body(Ctx& C)
          if (want.size() == 1 && want[0] == -1) C.viol(std::string("category:not-a-leaf-code:") + std::to_string(k), "a node carries a category code that has no interface class (class " + cls + ")");
          else {
             Defaults d; n.accept(d);
+            for (auto p : d.seen) if (p != &n) { C.viol(std::string("default-hook:other-object:") + cat_name(k), std::string("the default hook of ") + cat_name(k) + " hands another object than the node visited to the super-category hook (class " + cls + ")"); break; }
             if (d.chain != want) {
                std::string got, exp; for (int x : d.chain) got += std::string(cat_name(x)) + " "; for (int x : want) exp += std::string(cat_name(x)) + " ";
                C.viol(std::string("default-hook:") + cat_name(k), std::string("the default hook of ") + cat_name(k) + " reaches [ " + got + "], expected [ " + exp + "] (class " + cls + ")");
@@ -147,7 +162,7 @@ static void body(Ctx& C)
    C.extra("implementation_classes", list + "]");
    int ns = 0;
    for (auto& [cls, k] : classes) { if (ns++ % 40 == 0) C.sample(J().s("dynamic_class", cls).s("category", cat_name(k)).str(), 6); }
-   C.need("view_calls"); C.need("instances_checked");
+   C.need("view_calls"); C.need("instances_checked"); C.need("redeclarations_instantiated");
    C.exhaustive(missing.empty());
 }
 
